@@ -179,6 +179,10 @@ pub struct Part {
     pub nick: &'static str,
     pub alt: &'static str,
     pub user: &'static str,
+    /// not registered by the prelude: the connection is only opened and its
+    /// NICK / USER lines are part of the searched alphabet (so that several
+    /// connections can contend for one nickname during the search)
+    pub late: bool,
 }
 
 pub type StepOracle = Box<dyn Fn(&ChatScn, &View, &StepObs, &View, &mut BTreeSet<String>) -> Vec<Finding> + Send + Sync>;
@@ -213,6 +217,11 @@ pub struct ChatScn {
     pub goals: Vec<&'static str>,
     pub spec_skip: Option<Box<dyn Fn(&Act) -> bool + Send + Sync>>,
     pub key_now: bool,
+    /// after every step: a participant whose connection has ended must not have left a
+    /// user behind (under its nick or alternative nick) unless another live connection
+    /// registered that nick since - decided from what the harness knows (who connected
+    /// as whom, which connections are gone) and the server's user table
+    pub orphan_check: bool,
 }
 
 impl ChatScn {
@@ -240,6 +249,7 @@ impl ChatScn {
             goals: vec![],
             spec_skip: None,
             key_now: false,
+            orphan_check: false,
         }
     }
 
@@ -309,7 +319,11 @@ impl Scenario for ChatScn {
     }
     fn prelude(&self, w: &mut World) -> Result<(), MachineryError> {
         for p in &self.parts {
-            w.register(p.slot, p.nick, p.user)?;
+            if p.late {
+                w.connect(p.slot)?;
+            } else {
+                w.register(p.slot, p.nick, p.user)?;
+            }
         }
         for (s, l) in &self.prelude {
             w.send(*s, l)?;
@@ -318,6 +332,12 @@ impl Scenario for ChatScn {
     }
     fn actions(&self, v: &View) -> Vec<Act> {
         let mut acts = self.expand_all(v, &self.alphabet, &self.alphabet_for);
+        for p in &self.parts {
+            if p.late && v.life[p.slot] == crate::world::Life::Live && v.nick(p.slot).is_none() {
+                acts.push(Act::Send(p.slot, format!("NICK {}", p.nick)));
+                acts.push(Act::Send(p.slot, format!("USER {} 0 * :Late {}", p.user, p.user)));
+            }
+        }
         for p in &self.parts {
             if v.life[p.slot] == crate::world::Life::Live {
                 for e in &self.ends {
@@ -351,10 +371,30 @@ impl Scenario for ChatScn {
         self.invariants.clone()
     }
     fn step_oracle(&self, pre: &View, obs: &StepObs, post: &View, goals: &mut BTreeSet<String>) -> Vec<Finding> {
-        match &self.step_oracle {
+        let mut out = match &self.step_oracle {
             Some(f) => f(self, pre, obs, post, goals),
             None => vec![],
+        };
+        if self.orphan_check {
+            for p in &self.parts {
+                if matches!(post.life[p.slot], crate::world::Life::Live | crate::world::Life::Unconnected | crate::world::Life::Panicked(_)) {
+                    continue; // a panicked task is reported as such
+                }
+                for n in [p.nick, p.alt] {
+                    if !post.m.users.contains_key(n) {
+                        continue;
+                    }
+                    let owned = (0..post.life.len()).any(|j| j != p.slot && post.nick(j) == Some(n));
+                    if !owned {
+                        out.push(Finding {
+                            sig: "orphan-user".into(),
+                            detail: format!("after {:?} the connection of slot {} has ended but user {:?} is still in the server's user table and no live connection owns it", obs.act.render(), p.slot, n),
+                        });
+                    }
+                }
+            }
         }
+        out
     }
     fn state_oracle(&self, w: &mut World, v: &View, goals: &mut BTreeSet<String>) -> Vec<Finding> {
         match &self.state_oracle {
@@ -387,5 +427,10 @@ impl Scenario for ChatScn {
 }
 
 pub fn part(slot: usize, nick: &'static str, alt: &'static str, user: &'static str) -> Part {
-    Part { slot, nick, alt, user }
+    Part { slot, nick, alt, user, late: false }
+}
+
+/// A participant whose registration lines belong to the searched alphabet.
+pub fn late_part(slot: usize, nick: &'static str, alt: &'static str, user: &'static str) -> Part {
+    Part { slot, nick, alt, user, late: true }
 }
